@@ -421,13 +421,13 @@ def oracle_classical_rejects(r):
 
 
 SUBCHECKS = [
-    SubCheck("entrypoints", _case(), oracle_entrypoints, quick=4800, thorough=120000, shards_quick=8, shards_thorough=16,
+    SubCheck("entrypoints", _case(), oracle_entrypoints, quick=4800, thorough=60000, shards_quick=8, shards_thorough=16,
              essential={"odd_layout": 0.15, "noncommuting": 0.3}),
-    SubCheck("entrypoints_wide", _case(max_w=6, max_ops=24, qudits=False), oracle_entrypoints, quick=300, thorough=12000,
+    SubCheck("entrypoints_wide", _case(max_w=6, max_ops=24, qudits=False), oracle_entrypoints, quick=300, thorough=6000,
              shards_quick=2, shards_thorough=16),
-    SubCheck("order_metamorphic", _case(), oracle_order_metamorphic, quick=1000, thorough=25000, shards_quick=2),
-    SubCheck("sweep_prefix", _sweep_case(), oracle_sweep, quick=1600, thorough=40000, shards_quick=3),
-    SubCheck("classical", _classical_case(), oracle_classical, quick=1500, thorough=60000, shards_quick=1, shards_thorough=8),
+    SubCheck("order_metamorphic", _case(), oracle_order_metamorphic, quick=1000, thorough=12000, shards_quick=2),
+    SubCheck("sweep_prefix", _sweep_case(), oracle_sweep, quick=1600, thorough=16000, shards_quick=3),
+    SubCheck("classical", _classical_case(), oracle_classical, quick=1500, thorough=40000, shards_quick=1, shards_thorough=8),
     SubCheck("classical_rejects", st.fixed_dictionaries({"g": G.gate_recipes(lambda f: f.unitary and not f.qudit and "zeroq" not in f.tags)}),
              oracle_classical_rejects, quick=400, thorough=10000, shards_quick=1, shards_thorough=4),
 ]
